@@ -54,8 +54,8 @@ def describe(evs):
     import model
     out = []
     for kind, p, h, i in evs:
-        n = ["RTM_NEWROUTE", "RTM_DELROUTE", "RTM_NEWNEIGH"][kind]
-        if kind == 2:
+        n = ["RTM_NEWROUTE", "RTM_DELROUTE", "RTM_NEWNEIGH", "(kernel resolves, notification pending)"][kind]
+        if kind >= 2:
             out.append("%s %s" % (n, model.HOPS[h]))
         else:
             out.append("%s %s/16 via %s dev %s" % (n, model.PREFIXES[p], model.HOPS[h], model.IFACES[i]))
@@ -88,6 +88,13 @@ def main():
             # plus the smallest histories in which a list of routes waiting for one
             # next hop matters: two new routes, one deletion, one resolution, any order
             seqs += sorted(set(itertools.permutations("NNDR")))
+            # ... and those in which the controller can read a resolution from the
+            # kernel's table before its notification arrives
+            seqs += sorted(set(itertools.permutations("NKNR")))
+        else:
+            for pos in range(length):
+                for rest in itertools.product(gen.KINDS, repeat=length - 1):
+                    seqs.append(tuple(rest[:pos]) + ("K",) + tuple(rest[pos:]))
         for universe in ("A", "B"):
             for kinds in seqs:
                 length = len(kinds)
@@ -96,7 +103,7 @@ def main():
                 # one CrossHair process per (kind sequence, concrete first event);
                 # a NEWNEIGH first event only depends on the hop
                 firsts = [(p, h, i) for p in range(np_) for h in range(nh) for i in range(ni)]
-                if kinds[0] == "R":
+                if kinds[0] in "RK":
                     firsts = [(0, h, 0) for h in range(nh)]
                 for first in firsts:
                     src = gen.gen_one(length, universe, kinds, first)
@@ -171,7 +178,7 @@ def main():
             "exhaustive": not inconclusive and not mismatches,
             "explanation": "states = harness functions (one per sequence of event kinds and universe) for which CrossHair's symbolic execution of the real route_control.py returned 'Confirmed over all paths' (all index values, all paths); transitions = events executed per function x functions; counterexamples are re-run under plain CPython before being reported",
             "functions_encoded": ["conf/route_control.py: RouteController.add_new_route_entry, _add_neighbor, _create_update_module, _create_module_links, add_unresolved_new_neighbor, delete_route_entry, _probe_addr, _get_gate_idx, fetch_mac, validate_ipv4, get_*_module_name, mac_to_int, mac_to_hex"],
-            "bounds": ["%s, universes %s" % ("3 events per sequence, all 27 kind sequences, plus the 12 orders of {new route, new route, delete route, neighbour resolution}" if tier == "quick" else "4 events per sequence, all 81 kind sequences", universes),
+            "bounds": ["%s, universes %s" % ("3 events per sequence, all 27 kind sequences, plus the 12 orders of {new route, new route, delete route, neighbour resolution} and the 12 orders of {new route, kernel resolves (notification pending), new route, notification}" if tier == "quick" else "4 events per sequence: all 81 sequences of new/delete/notification plus the 108 with one silent kernel resolution", universes),
                        "events the kernel cannot produce (duplicate RTM_NEWROUTE, RTM_DELROUTE of an absent route, repeated RTM_NEWNEIGH) are skipped"],
             "queries": len(results), "solver": "CrossHair 0.0.x over z3 (python3-vt)", "solver_s": round(sum(r[2] for r in results), 1),
             "functions_confirmed": confirmed, "functions_total": len(results),
